@@ -24,14 +24,16 @@ var c16Layouts = [][3]string{
 	5: {"Org", "Org::App", "Org::App"}, // prefix-related namespaces
 	6: {"Org::App", "Org::App::Mod", "Org"},
 	7: {"", "NS", "NS"},
+	8: {"NS", "", "NS"}, // the home namespace is named, one node lives in the empty namespace
+	9: {"NS", "", ""},
 }
 
-var c16StyleNames = []string{"shortest spelling", "fully qualified", "first namespace segment dropped"}
+var c16StyleNames = []string{"shortest spelling", "fully qualified", "first namespace segment dropped", "always unqualified (dangling across namespaces)"}
 
 // c16GraphVariant selects a namespace layout, a reference spelling and a family specific extra.
 type c16GraphVariant struct {
 	Layout int
-	Style  int    // 0 shortest (unqualified where that resolves), 1 fully qualified, 2 first segment dropped
+	Style  int    // 0 shortest (unqualified where that resolves), 1 fully qualified, 2 first segment dropped, 3 always unqualified
 	Extra  string // "", "enum", "undefined", "shadow", "noapplies"
 	Shape  int    // common-type body shape 0..2, -1: rotate with the graph number
 }
@@ -54,6 +56,8 @@ func c16Spell(style int, from, to, name string) string {
 		if i := strings.Index(to, "::"); i >= 0 {
 			return c16Q(to[i+2:], name) // looks relative; Cedar has no relative names
 		}
+	case 3:
+		return name // dangling unless the target is in the same or in the empty namespace
 	}
 	if to == from || to == "" {
 		return name // same namespace, or fallback to the empty namespace (names are unique)
@@ -80,7 +84,7 @@ func c16StyleMatters(layout, style int) bool {
 func c16AllLayoutStyles() []c16GraphVariant {
 	var out []c16GraphVariant
 	for l := range c16Layouts {
-		for s := 0; s < 3; s++ {
+		for s := 0; s < 4; s++ {
 			if c16StyleMatters(l, s) {
 				out = append(out, c16GraphVariant{Layout: l, Style: s, Shape: -1})
 			}
@@ -219,6 +223,8 @@ func c16EntityGraphCase(idx int, variants []c16GraphVariant) c16Case {
 // number, thorough crosses all three shapes.
 func c16CommonVariants(thorough bool) []c16GraphVariant {
 	base := c16AllLayoutStyles()
+	// "twice": every reference is mentioned twice in the referring type's body
+	base = append(base, c16GraphVariant{Layout: 0, Shape: -1, Extra: "twice"}, c16GraphVariant{Layout: 7, Shape: -1, Extra: "twice"}, c16GraphVariant{Layout: 5, Style: 1, Shape: -1, Extra: "twice"})
 	if !thorough {
 		return base
 	}
@@ -260,12 +266,17 @@ func c16CommonGraphCase(idx int, variants []c16GraphVariant) c16Case {
 			attrs := []c16Attr{c16At("k", c16TLong())}
 			for _, j := range outs {
 				attrs = append(attrs, c16At("f"+c16XYZ[j], ref(i, j)))
+				if v.Extra == "twice" {
+					attrs = append(attrs, c16Ato("g"+c16XYZ[j], ref(i, j)))
+				}
 			}
 			body = c16TRec(attrs...)
 		case len(outs) == 0 && shape == 1:
 			body = c16TLong()
 		case len(outs) == 0:
 			body = c16TString()
+		case len(outs) == 1 && v.Extra == "twice":
+			body = c16TRec(c16At("f"+c16XYZ[outs[0]], ref(i, outs[0])), c16At("g"+c16XYZ[outs[0]], c16TSet(ref(i, outs[0]))))
 		case len(outs) == 1 && shape == 1:
 			body = c16TSet(ref(i, outs[0]))
 		case len(outs) == 1:
@@ -273,6 +284,9 @@ func c16CommonGraphCase(idx int, variants []c16GraphVariant) c16Case {
 		default:
 			var attrs []c16Attr
 			for _, j := range outs {
+				if v.Extra == "twice" {
+					attrs = append(attrs, c16At("g"+c16XYZ[j], ref(i, j)))
+				}
 				if shape == 1 {
 					attrs = append(attrs, c16At("f"+c16XYZ[j], c16TSet(ref(i, j))))
 				} else {
